@@ -10,7 +10,7 @@ def parseOp : List String → Option Op
   | ["p", r] => some (.poll (natTok r))
   | ["c", r] => some (.cancel (natTok r))
   | ["d", r, o] =>
-    let out := match o with | "ok0" => some (DialOutcome.ok false) | "ok1" => some (.ok true) | "fc" => some .failConnect
+    let out := match o with | "ok0" => some (DialOutcome.ok .asRequested) | "ok1" => some (.ok .alpnH2) | "okp" => some (.ok .notShared) | "fc" => some .failConnect
                             | "fh" => some .failHandshake | _ => none
     out.map (Op.dialDone (natTok r))
   | ["f", r] => some (.finish (natTok r))
@@ -68,19 +68,23 @@ structure Acc where
   drain    : Bool := false
   diverged : Bool := false
   agree    : Bool := true
-  cls      : Option String := none
+  cls      : List String := []        -- every class of violation seen, in order of first occurrence
   shown    : List String := []
+
+def addCls (l : List String) : Option String → List String
+  | none => l
+  | some c => if l.contains c then l else l ++ [c]
 
 def stepCase (cfg : Config) (a : Acc) (op : Op) (io : IObs) : Acc :=
   -- implementation-only monitors run over the whole trace
   let (mon, v) := monStep cfg a.mon op io
-  let a := { a with mon := mon, cls := a.cls <|> v }
+  let a := { a with mon := mon, cls := addCls a.cls v }
   let a := if op == .mark then { a with drain := true } else a
   let a := match op with | .issue r _ _ => { a with reqs := if a.reqs.contains r then a.reqs else r :: a.reqs } | _ => a
   if a.diverged then a else
   -- quiescent progress, evaluated on the implementation's answer in the model's (so far agreeing) state
   let a := match op with
-    | .poll r => if strandedAt a.s r io.res then { a with cls := a.cls <|> some "C03/stranded" } else a
+    | .poll r => if strandedAt a.s r io.res then { a with cls := addCls a.cls (some "C03/stranded") } else a
     | _ => a
   let (s', mres) := step a.s op
   let mo := snapshot s' mres
@@ -92,7 +96,12 @@ def stepCase (cfg : Config) (a : Acc) (op : Op) (io : IObs) : Acc :=
   else if !observable then { a with s := s', agree := false, shown := a.shown ++ [showIObs mo ++ " <"] }
   else
     let c := classify a.s a.drain op mo io
-    { a with s := s', diverged := true, agree := false, cls := a.cls <|> c, shown := a.shown ++ [showIObs mo ++ " <<"] }
+    { a with s := s', diverged := true, agree := false, cls := addCls a.cls c, shown := a.shown ++ [showIObs mo ++ " <<"] }
+
+/-- The idle timeout token: `-` none, `<ms>`, or `u<µs>` for a timeout below the model's 1 ms tick: every
+    tick then outlasts it, which is what 1 ms (a connection expires once it was idle for longer) says too. -/
+def idleTok (t : String) : Option Nat :=
+  if t == "-" then none else if t.startsWith "u" then some 1 else some (natTok t)
 
 /-- `pool <idleTimeout|-> <maxIdle> <cap> ; <op> ; … | <obs> ; …` -/
 def driverLine (inp obs : List String) : Bool × Bool × String × String :=
@@ -100,7 +109,7 @@ def driverLine (inp obs : List String) : Bool × Bool × String × String :=
   if obs == ["unreliable"] then (true, true, "-", "skipped") else
   match splitSemi inp with
   | (it :: mi :: cap :: laxT) :: opToks =>
-    let cfg : Config := { idleTimeout := if it == "-" then none else some (natTok it), maxIdle := natTok mi, cap := cap == "1",
+    let cfg : Config := { idleTimeout := idleTok it, maxIdle := natTok mi, cap := cap == "1",
                           lax := laxT == ["1"] }
     let ops := opToks.filterMap parseOp
     let iobs := (splitSemi obs).filterMap parseIObs
@@ -108,7 +117,7 @@ def driverLine (inp obs : List String) : Bool × Bool × String × String :=
       (false, false, "pool/unparsable-observation", s!"ops={ops.length}/{opToks.length} obs={iobs.length}")
     else
       let a := (ops.zip iobs).foldl (fun a (op, io) => stepCase cfg a op io) { s := init cfg }
-      (a.agree, a.cls.isNone, a.cls.getD "-", " ; ".intercalate a.shown)
+      (a.agree, a.cls.isEmpty, if a.cls.isEmpty then "-" else ",".intercalate a.cls, " ; ".intercalate a.shown)
   | _ => (false, false, "bad-line", "")
 
 end Hd.Pool
